@@ -92,7 +92,37 @@ def norm(t):
     return tuple(t)
 
 
-def run_history(rng, L, tab, nops):
+def twin_table(rng, L, tab):
+    """A look-alike of the table: the same class names, parameters and (mostly) direct supertypes, but ONE class that has
+    subclasses gets other supertypes -- so that some class's direct supertypes read the same while its hierarchy above them
+    differs.  Type objects built for the two tables in one process must not be confused (aliasing across a generation run)."""
+    used = {}
+    for c, (_, sups) in tab.items():
+        for s_ in sups:
+            if s_[0] in ("A", "C"):
+                used.setdefault(s_[1], []).append(c)
+    cands = [c for c in used if c in tab]
+    if not cands:
+        return None
+    m = rng.choice(cands)
+    params, sups = tab[m]
+    others = [c for c in tab if c < m and c not in (m,) and not tab[c][0]]
+    new = [s_ for s_ in sups if rng.random() < 0.3]
+    if others and rng.random() < 0.8:
+        new.append(("C", rng.choice(others)))
+    gens1 = [c for c in tab if c < m and len(tab[c][0]) == 1 and tab[c][0][0][3] is None]
+    if gens1 and params and rng.random() < 0.7:
+        new.append(("A", rng.choice(gens1), [params[0] if params[0][2] == 0 else ("B", L.any_bid, False)]))
+    if [repr(x) for x in new] == [repr(x) for x in sups]:
+        new = []
+        if [repr(x) for x in new] == [repr(x) for x in sups]:
+            return None
+    t2 = dict(tab)
+    t2[m] = (params, new)
+    return t2
+
+
+def run_history(rng, L, tab, nops, directed=False):
     """Returns (ops for Coq, problems found by the independent judge / snapshots)."""
     b = T.Builder(L, tab)
     tp = L.tp
@@ -120,6 +150,19 @@ def run_history(rng, L, tab, nops):
         if not T.nested_nothing(t) and t[0] != "N":
             add(t)
     watched = lambda: [o for _, o in pool] + list(b.cons.values())    # noqa: E731
+    if directed:
+        # every generic class instantiated with the SAME (shared, per-language) built-in argument objects, whatever the table
+        gp = sorted(ground_pool)
+        for c in gens:
+            args = [gp[(3 * k + 1) % len(gp)] for k, _ in enumerate(tab[c][0])]
+            try:
+                res = b.cls(c).new([b.obj(a) for a in args])
+            except Exception:       # noqa: BLE001
+                continue
+            rt = ("A", c, args)
+            ops.append(("supers", rt, [T.reify(L, s_) for s_ in res.supertypes]))
+            ops.append(("closure", rt, [T.reify(L, s_) for s_ in res.get_supertypes()]))
+            pool.append((rt, res))
     for _ in range(nops):
         if not pool:
             break
@@ -275,6 +318,7 @@ def run(tier, seed, replay=None):
     rng = random.Random(C.sub_seed(seed, "c07"))
     langs = {l: T.Lang(l) for l in T.LANGS}
     groups, allprob = [], []
+    ntwin = [0]
     nh = 120 if tier == "quick" else 3000
     for i in range(nh):
         lang = T.LANGS[i % 4]
@@ -283,6 +327,15 @@ def run(tier, seed, replay=None):
         ops, problems = run_history(rng, L, tab, 25 if tier == "quick" else 60)
         groups.append((lang, tab, ops))
         allprob.append(problems)
+        if i % 3 == 0:
+            # twin histories: the table, then a look-alike of it, in the same process and on the same argument objects
+            t2 = twin_table(rng, L, tab)
+            if t2 is not None:
+                for tb in (tab, t2):
+                    ops, problems = run_history(rng, L, tb, 6, directed=True)
+                    groups.append((lang, tb, ops))
+                    allprob.append(problems)
+                    ntwin[0] += 1
     chunk = 10
     files = [("c07_%d" % (k // chunk), coq_file(groups[k:k + chunk])) for k in range(0, len(groups), chunk)]
     C.clean_cases("c07_")
@@ -327,6 +380,10 @@ def run(tier, seed, replay=None):
                  "is_subtype / get_supertypes on a shared pool of type objects over a random class table; after every call "
                  "all previously created objects are re-snapshotted (deep structural) and compared. distinct_nontrivial = distinct "
                  "substitution/supertype observations with a non-trivial term",
+            twin_histories=ntwin[0],
+            twin_rule="every third table is followed by two short histories, on the table and on a look-alike of it (one class with "
+                      "subclasses gets other supertypes; names, parameters and the other classes unchanged), in which every generic class "
+                      "is instantiated with the same shared built-in argument objects",
             traces_validated_against_impl=len(groups), model_impl_mismatches=len(mism), spec_violations=spec_viol,
             op_histogram=kinds,
             samples=[dict(lang=groups[0][0], ops=[list(map(str, o)) for o in groups[0][2][:5]])],
